@@ -1,5 +1,6 @@
 import MirGen.Hierarchy
 import MirProofs.Lemmas.PyHier
+import MirProofs.Props.C17
 /-!
   C17 (generated part) — the T- and L-measure kernels of `mir_eval/hierarchy.py` as REGENERATED from the source
   (`MirGen/Hierarchy.lean`, translator part `hierarchy`) equal the hand-written model (`MirModel/Hierarchy.lean`) for ALL
@@ -75,5 +76,89 @@ theorem gen_count_inversions_spec (a b : List Nat) :
   rw [_count_inversions_eq_model, countInversions_eq_countPairs]
 
 example : Mir.Gen.hierarchy._count_inversions [3, 1, 3, 2] [2, 2, 0, 4] = .ok 10 := by decide +kernel
+
+/-! ### `_compare_frame_rankings` -/
+
+/-- the translated `for` loop over `zip(levels, counts, positions[:-1], positions[1:])` stores one slice and one count
+    per level (newest binding first) -/
+theorem _compare_frame_rankings_loop1_eq :
+    ∀ (items : List (Nat × Nat × Nat × Nat)) (index : DDict Slice) (ref_map : DDict Nat),
+      Mir.Gen.hierarchy._compare_frame_rankings_loop1 items index ref_map
+        = .ok ((items.map fun x => (x.1, slice2 x.2.2.1 x.2.2.2)).reverse ++ index,
+               (items.map fun x => (x.1, x.2.1)).reverse ++ ref_map) := by
+  intro items
+  induction items with
+  | nil => intro index ref_map; rfl
+  | cons x t ih =>
+    obtain ⟨l, c, s, e⟩ := x
+    intro index ref_map
+    unfold Mir.Gen.hierarchy._compare_frame_rankings_loop1
+    simp only [dictSet, ih, List.map_cons, List.reverse_cons, List.append_assoc, List.cons_append, List.nil_append]
+
+/-- the translated accumulation loop adds one `_count_inversions` (= the model's `countInversions`) per level pair -/
+theorem _compare_frame_rankings_loop2_eq (es : List Nat) (index : DDict Slice) :
+    ∀ (pairs : List (Nat × Nat)) (inv : Nat),
+      Mir.Gen.hierarchy._compare_frame_rankings_loop2 es index pairs inv
+        = .ok (inv + (pairs.map fun ij => countInversions (getSlice es (dictGetD index ij.1 (slice1 0)))
+                                            (getSlice es (dictGetD index ij.2 (slice1 0)))).sum) := by
+  intro pairs
+  induction pairs with
+  | nil => intro inv; rfl
+  | cons x t ih =>
+    obtain ⟨i, j⟩ := x
+    intro inv
+    unfold Mir.Gen.hierarchy._compare_frame_rankings_loop2
+    simp only [_count_inversions_eq_model, ok_bind, ih, List.map_cons, List.sum_cons, Nat.add_assoc]
+
+/-- **`_compare_frame_rankings` as translated = the hand model** (`compareFrameRankings`) for ALL rank vectors (any lengths,
+    empty, estimate longer or shorter: the same `IndexError`), both `transitive` values; the normaliser is the float of the
+    model's natural number -/
+theorem _compare_frame_rankings_eq_model (ref est : List Nat) (tr : Bool) :
+    Mir.Gen.hierarchy._compare_frame_rankings ref est tr
+      = (compareFrameRankings ref est tr).map fun x => (x.1, ((x.2 : Nat) : Rat)) := by
+  unfold Mir.Gen.hierarchy._compare_frame_rankings
+  simp only [take_ref_argsort, ok_bind]
+  by_cases hlen : est.length < ref.length
+  · simp only [take_est_short ref est hlen, Hierarchy.compareFrameRankings_short ref est tr hlen]; rfl
+  · have hle : ref.length ≤ est.length := by omega
+    simp only [take_est_argsort ref est hle, ok_bind]
+    have hk := keysAsc_uniqueCounts ref
+    obtain ⟨h1, h2⟩ := unique_blocks (Hierarchy.uniqueCounts ref) hk (uniqueCounts_pos ref)
+    generalize uniqueIndexCounts (sortedOf (Hierarchy.uniqueCounts ref)) = r at h1 h2
+    obtain ⟨levels, positions, counts⟩ := r
+    simp only at h1 h2
+    subst h1
+    simp only [h2, _compare_frame_rankings_loop1_eq, ok_bind, List.append_nil, ← List.map_reverse]
+    have hrm : ((offs 0 (Hierarchy.uniqueCounts ref)).reverse.map fun x => (x.1, x.2.1))
+        = (Hierarchy.uniqueCounts ref).reverse := by
+      rw [List.map_reverse, offs_pairs]
+    unfold compareFrameRankings
+    rw [if_neg hlen]
+    cases tr
+    · simp only [hrm, tee, combinations2, levelPairs, Bool.false_eq_true, if_false, if_true, pure_eq_ok, ok_bind,
+        dictGetD_reverse_lookupCount hk, npSum, _compare_frame_rankings_loop2_eq, List.map_reverse,
+        getSlice_index ref est hle, Nat.zero_add, decide_eq_true_eq, Nat.cast_eq_zero]
+      split <;> rfl
+    · simp only [hrm, tee, combinations2, levelPairs, if_true, pure_eq_ok, ok_bind,
+        dictGetD_reverse_lookupCount hk, npSum, _compare_frame_rankings_loop2_eq, List.map_reverse,
+        getSlice_index ref est hle, Nat.zero_add, decide_eq_true_eq, Nat.cast_eq_zero]
+      split <;> rfl
+
+/-- the default of the translated signature: `transitive=False` -/
+theorem _compare_frame_rankings_default (ref est : List Nat) :
+    Mir.Gen.hierarchy._compare_frame_rankings ref est
+      = (compareFrameRankings ref est false).map fun x => (x.1, ((x.2 : Nat) : Rat)) :=
+  _compare_frame_rankings_eq_model ref est false
+
+/-- the headline on the translated definition: `(inversions, normalizer) = (#triples − #correct, #triples)` of the
+    triplet-ranking definition, for both `transitive` settings -/
+theorem gen_compare_frame_rankings_spec (ref est : List Nat) (tr : Bool) (h : ref.length ≤ est.length) :
+    Mir.Gen.hierarchy._compare_frame_rankings ref est tr
+      = .ok (triples tr ref est - correct tr ref est, ((triples tr ref est : Nat) : Rat))
+    ∧ correct tr ref est ≤ triples tr ref est := by
+  obtain ⟨h1, h2⟩ := Mir.C17.compareFrameRankings_spec ref est tr h
+  exact ⟨by rw [_compare_frame_rankings_eq_model, h1]; rfl, h2⟩
+
+example : Mir.Gen.hierarchy._compare_frame_rankings [1, 2, 3, 1] [1, 1, 2, 3] true = .ok (3, 5) := by decide +kernel
 
 end Mir.C17.Gen
